@@ -157,7 +157,7 @@ def _dfs(build, spec, stack, report, budget):
     opts, bound = spec["opts"], spec["bound"]
     stats = {"executions": 0, "points": 0, "states": set(), "outcomes": set(),
              "violations": [], "diverged": 0, "infra": [], "point_kinds": {},
-             "max_choices": 0, "samples": [], "stopped": False}
+             "max_choices": 0, "samples": [], "stopped": False, "deviating": 0}
     contaminated = False
     while stack and not contaminated:
         if budget is not None and stats["executions"] >= budget:
@@ -173,6 +173,8 @@ def _dfs(build, spec, stack, report, budget):
                 if not ex.diverged:
                     break
         stats["executions"] += 1
+        if prefix:
+            stats["deviating"] += 1
         stats["points"] += ex.points
         stats["states"] |= ex.states
         stats["max_choices"] = max(stats["max_choices"], len(ex.trace))
@@ -255,7 +257,7 @@ def explore_scenario(spec: Dict[str, Any]) -> Dict[str, Any]:
     total = {"executions": 0, "points": 0, "states": 0, "outcomes": set(),
              "violations": [], "diverged": 0, "infra": [], "point_kinds": {},
              "max_choices": 0, "samples": [], "forks": 0, "spec": spec["params"],
-             "capped": False, "stopped": False}
+             "capped": False, "stopped": False, "deviating": 0}
     states = set()
     stack: List[List[str]] = [list(p) for p in spec.get("roots", [[]])]
     budget = spec.get("budget")
@@ -267,7 +269,7 @@ def explore_scenario(spec: Dict[str, Any]) -> Dict[str, Any]:
         stats, stack = _in_child(_dfs_child, (spec, stack, remaining))
         total["forks"] += 1
         total["stopped"] = total["stopped"] or stats["stopped"]
-        for key in ("executions", "points", "diverged"):
+        for key in ("executions", "points", "diverged", "deviating"):
             total[key] += stats[key]
         states |= stats["states"]
         total["outcomes"] |= stats["outcomes"]
